@@ -45,41 +45,47 @@ def _actions_from_cases(ctx, res, path):
         ctx.coverage_actions[a] = (od + n, og + n)
 
 
+def _count_field(path, field):
+    """occurrences of the values of `"field":"value"` in the generated cases"""
+    counts = {}
+    key = '"%s":"' % field
+    with open(path) as f:
+        for line in f:
+            i = line.find(key)
+            while i >= 0:
+                v = line[i + len(key):line.index('"', i + len(key))]
+                counts[v] = counts.get(v, 0) + 1
+                i = line.find(key, i + len(key))
+    return counts
+
+
+def _checked_and_generated(ctx, module, cfg, label, min_cases, workers=4):
+    """One TLC run decides the invariants / properties of the configuration on
+    the specification and prints the cases of the S->I binding (the Gen_*
+    configurations carry both)."""
+    cases = os.path.join(ctx.work, "cases-%s.ndjson" % label)
+    res = ctx.tlc(module, cfg, workers=workers, label="mc-" + label, coverage=False, cases_to=cases)
+    ctx.require_ok(res, cfg)
+    _actions_from_cases(ctx, res, cases)
+    if res.ncases < min_cases:
+        raise vlib.ToolError("%s produced too few cases (%d)" % (cfg, res.ncases))
+    return res, cases
+
+
 def run(ctx):
     thorough = ctx.tier == "thorough"
     suffix = "_thorough" if thorough else ""
     ctx.build("replay_zonefile", "record_zonefile")
 
-    # 1. TLC decides the properties on the specification -------------------
-    mc = ctx.tlc("MC_ZoneFile", "MC_ZoneFile" + suffix, workers=8, label="mc-chars", coverage=False)
-    ctx.require_ok(mc, "MC_ZoneFile")
-    mcl = ctx.tlc("MC_ZoneLayout", "MC_ZoneLayout" + suffix, workers=8, label="mc-layout", coverage=False)
-    ctx.require_ok(mcl, "MC_ZoneLayout")
-    # limit shapes: strings of 254..257, labels of 62..65, names of 253..256 octets
-    # in nine spellings (plain, quoted, \\DDD / \\c at the start, middle, end)
-    mclim = ctx.tlc("MC_ZoneLimits", "MC_ZoneLimits", workers=4, label="mc-limits", coverage=False)
-    ctx.require_ok(mclim, "MC_ZoneLimits")
-    # integer boundaries: every numeric field kind x 0, 1, max-1, max, max+1, max+4, ...
-    mcint = ctx.tlc("MC_ZoneInts", "MC_ZoneInts", workers=4, label="mc-ints", coverage=False)
-    ctx.require_ok(mcint, "MC_ZoneInts")
-    ctx.exhaustive_flags.append(True)
-    # documentation of the findings: with the deviations on, the properties fail
-    d1 = ctx.tlc("MC_ZoneFile", "MC_ZoneFile_dev", workers=2, label="mc-chars-dev",
-                 expect_violation="NeverPanics", coverage=False, count=False)
-    ctx.require_ok(d1, "MC_ZoneFile_dev (expected counterexample)")
-    d2 = ctx.tlc("MC_ZoneLayout", "MC_ZoneLayout_dev", workers=2, label="mc-layout-dev",
-                 expect_violation="Metamorphic", coverage=False, count=False)
-    ctx.require_ok(d2, "MC_ZoneLayout_dev (expected counterexample)")
-
-    # 2. S->I ---------------------------------------------------------------
-    cases = os.path.join(ctx.work, "cases-chars.ndjson")
-    gen = ctx.tlc("MC_ZoneFile", "Gen_ZoneFile" + suffix, workers=8, label="gen-chars",
-                  coverage=False, cases_to=cases, count=False)
-    ctx.require_ok(gen, "Gen_ZoneFile")
-    _actions_from_cases(ctx, gen, cases)
+    # 1. + 2.  TLC decides the properties on the specification; the same runs
+    # print the cases that are replayed into the real reader (S->I) ---------
+    gen, cases = _checked_and_generated(ctx, "MC_ZoneFile", "Gen_ZoneFile" + suffix, "chars", 10000, workers=8)
     ctx.require_actions(gen, CHAR_ACTIONS)
-    if gen.ncases < 10000:
-        raise vlib.ToolError("character-level generator produced too few cases")
+    # every context of the character level and every completing suffix occurs
+    seen = _count_field(cases, "ctx")
+    missing = [c for c in ("file", "txt", "own", "inc", "inc-q", "inc-l", "at", "at-own", "b64", "b64-l", "b64-p") if not seen.get(c)]
+    if missing:
+        raise vlib.ToolError("vacuity: character-level contexts without cases: %s" % missing)
     head = os.path.join(ctx.work, "head.ndjson")
     with open(cases) as f, open(head, "w") as g:
         for i, line in enumerate(f):
@@ -90,34 +96,52 @@ def run(ctx):
     ctx.selftest("perturbed expectation is reported by replay_zonefile", "FAIL " in out)
     ctx.replay_cases("replay_zonefile", cases, label="chars")
 
-    lcases = os.path.join(ctx.work, "cases-layout.ndjson")
-    genl = ctx.tlc("MC_ZoneLayout", "Gen_ZoneLayout" + suffix, workers=8, label="gen-layout",
-                   coverage=False, cases_to=lcases, count=False)
-    ctx.require_ok(genl, "Gen_ZoneLayout")
-    _actions_from_cases(ctx, genl, lcases)
+    genl, lcases = _checked_and_generated(ctx, "MC_ZoneLayout", "Gen_ZoneLayout" + suffix, "layout", 1000, workers=8)
     ctx.require_actions(genl, LAYOUT_ACTIONS)
-    if genl.ncases < 1000:
-        raise vlib.ToolError("layout generator produced too few cases")
+    routes = _count_field(lcases, "route")
+    missing = [r for r in ("from_slice", "from_str", "load", "bufmut", "extend", "default_reserve") if not routes.get(r)]
+    if missing:
+        raise vlib.ToolError("vacuity: construction routes without cases: %s" % missing)
+    kinds = _count_field(lcases, "kind")
+    if not kinds.get("MissingSoa") or not kinds.get("ClassMismatch"):
+        raise vlib.ToolError("vacuity: zonetree::parsed error kinds without cases: %s" % kinds)
     ctx.replay_cases("replay_zonefile", lcases, label="layouts")
 
-    limcases = os.path.join(ctx.work, "cases-limits.ndjson")
-    genlim = ctx.tlc("MC_ZoneLimits", "Gen_ZoneLimits", workers=4, label="gen-limits",
-                     coverage=False, cases_to=limcases, count=False)
-    ctx.require_ok(genlim, "Gen_ZoneLimits")
-    _actions_from_cases(ctx, genlim, limcases)
+    # limit shapes: strings of 254..257, labels of 62..65, names of 253..256 octets
+    # in nine spellings (plain, quoted, \\DDD / \\c at the start, middle, end)
+    genlim, limcases = _checked_and_generated(ctx, "MC_ZoneLimits", "Gen_ZoneLimits", "limits", 200)
     ctx.require_actions(genlim, ["txt", "txt2", "hinfo", "label", "rdlabel", "name"])
     ctx.replay_cases("replay_zonefile", limcases, label="limits")
 
-    intcases = os.path.join(ctx.work, "cases-ints.ndjson")
-    genint = ctx.tlc("MC_ZoneInts", "Gen_ZoneInts", workers=4, label="gen-ints",
-                     coverage=False, cases_to=intcases, count=False)
-    ctx.require_ok(genint, "Gen_ZoneInts")
-    _actions_from_cases(ctx, genint, intcases)
+    # integer boundaries: every numeric field kind x 0, 1, max-1, max, max+1, max+4, ...
+    genint, intcases = _checked_and_generated(ctx, "MC_ZoneInts", "Gen_ZoneInts", "ints", 300)
     ctx.require_actions(genint, ["soa-serial", "soa-minimum", "rrsig-origttl", "rrsig-expiration", "mx-preference",
                                  "srv-port", "naptr-order", "ds-keytag", "dnskey-protocol", "nsec3-iterations",
                                  "tlsa-usage", "caa-flags", "ttl-column", "dollar-ttl", "class-nnn", "type-nnn",
                                  "generic-len"])
     ctx.replay_cases("replay_zonefile", intcases, label="ints")
+
+    # characters at the boundaries of the symbol alphabet in every symbol consumer
+    gensym, symcases = _checked_and_generated(ctx, "MC_ZoneSyms", "Gen_ZoneSyms", "syms", 2000)
+    ctx.require_actions(gensym, ["owner", "rdata-name", "charstr", "type", "mx-preference", "control-word", "include-path",
+                                 "base64", "base64-dnskey", "base16", "base32", "salt", "generic-data", "svcb-param",
+                                 "after-at", "after-marker", "comment"])
+    ctx.replay_cases("replay_zonefile", symcases, label="syms")
+
+    # the record-data grammar through the string-token scanner (IterScanner)
+    genit, itcases = _checked_and_generated(ctx, "MC_ZoneIter", "Gen_ZoneIter", "iter", 300)
+    ctx.require_actions(genit, ["txt", "ns", "ns-rel", "mx", "soa", "ds", "dnskey", "openpgpkey", "tlsa", "nsec",
+                                "nsec3param", "nsec3", "generic"])
+    ctx.replay_cases("replay_zonefile", itcases, label="iter")
+    ctx.exhaustive_flags.append(True)
+
+    # documentation of the (repaired) findings: with the deviations on, the properties fail
+    d1 = ctx.tlc("MC_ZoneFile", "MC_ZoneFile_dev", workers=2, label="mc-chars-dev",
+                 expect_violation="NeverPanics", coverage=False, count=False)
+    ctx.require_ok(d1, "MC_ZoneFile_dev (expected counterexample)")
+    d2 = ctx.tlc("MC_ZoneLayout", "MC_ZoneLayout_dev", workers=2, label="mc-layout-dev",
+                 expect_violation="Metamorphic", coverage=False, count=False)
+    ctx.require_ok(d2, "MC_ZoneLayout_dev (expected counterexample)")
 
     # 3. I->S ----------------------------------------------------------------
     n_traces = 4 if thorough else 2
@@ -148,6 +172,10 @@ def run(ctx):
         _known_from_trace(ctx, res)
         if not ok:
             ctx.violation("recorded reader run is not a behaviour of ZoneFile.tla", rej)
+        # vacuity guard: the specification decides (almost) all random logical files
+        abstained = len(res.tagged.get("TRACE_ABSTAINED", []))
+        if abstained * 10 > rec["meta"]:
+            raise vlib.ToolError("the specification abstained on %d of %d random logical files" % (abstained, rec["meta"]))
         if i == 0:
             # binding self-test: corrupt one recorded outcome, TLC must reject
             bad = os.path.join(ctx.work, "trace-bad.ndjson")
@@ -167,7 +195,9 @@ def run(ctx):
             open(bad, "w").write("\n".join(lines) + "\n")
             ok2, _, _ = ctx.validate_trace("Trace_ZoneFile", "Trace_ZoneFile", bad, label="trace-selftest")
             ctx.selftest("corrupted trace is rejected by Trace_ZoneFile", not ok2)
-    ctx.assume("character classes: SP LF CR ( ) ; \" \\ 0 a; contexts: whole file, data of a TXT record, owner of a TXT record")
+    ctx.assume("character classes: SP LF CR ( ) ; \" \\ 0 a (and = C2 80 in the Base 64 context); contexts: whole file, data of a TXT record, owner of a TXT record, after $INCLUDE, after a leading @, data of an OPENPGPKEY record")
     ctx.assume("errors are compared as accept/reject; entries returned before the error are compared in full")
-    ctx.assume("record types outside TXT/NS/CNAME/PTR/DNAME/MX/HINFO/generic, TTL >= 2^31 and UTF-8 in $INCLUDE paths are unmodelled (spec abstains)")
+    ctx.assume("record types outside TXT/NS/CNAME/PTR/DNAME/MX/HINFO/SOA/SVCB/HTTPS/DNSKEY/CDNSKEY/DS/CDS/OPENPGPKEY/TLSA/NSEC/NSEC3/NSEC3PARAM/generic, TTL >= 2^31 and (in the reader machine; the boundary-character table states it) UTF-8 in $INCLUDE paths are unmodelled (spec abstains)")
+    ctx.assume("the string-token scanner is compared with the reader only where both define the token: no decimal escapes in ASCII-string tokens (the reader accepts them, IterScanner does not), no SVCB")
+    ctx.assume("ZoneBuilder::try_from(parsed::Zonefile): only 'has to fail' (no apex, records outside the zone, DS without NS) and 'does not panic' are stated")
     ctx.assume("where a known deviation makes the code overwrite unread input (TXT without data followed by an unquoted token at the line start) or skip an octet unseen (after \\#), the deviant outcome is not predicted and the case is skipped / accepted as explained by the deviation")
